@@ -115,6 +115,60 @@ def check_distguard_c(rep, mod):
                     sample='%s: %s' % (fn, how))
 
 
+def check_masked_nohist(rep, mod):
+    """a finder that only MASKS the distance (no comparison with the history actually available) turns the distance 0 of a hash entry that points at the current position - every entry does
+    right after the history was reset - into 2^w; it is only sound behind the one-time no-history guard that emits the first byte as a literal"""
+    R = rep.rule('R-MASKED-NOHIST', 'every C match finder whose distances are only masked with dist_mask (idiom ((x-1) & dist_mask) + 1, no range check against the history present) branches on '
+                 'has_hist == IGZIP_NO_HIST, and the edge taken when they are equal leads to the store has_hist = IGZIP_HIST: right after a history reset (stream start, full flush, stateless call) the first '
+                 'position is not looked up, so no distance of 2^w reaches before the reset point', floor=1, unit='mask-only finders')
+    off = c19.field_offsets('struct isal_zstream', ['internal_state.dist_mask', 'internal_state.has_hist'])
+    K, drop = mirror.c_values('default', ['igzip_lib.h'], [('NO', 'IGZIP_NO_HIST'), ('HIST', 'IGZIP_HIST')], 'c17_hist')
+    if drop:
+        raise AnalysisBroken('IGZIP_NO_HIST / IGZIP_HIST not found')
+    cell = ('param', 0, off['internal_state.dist_mask'])
+    for fn, callee in sorted(FINDERS.items()):
+        f = mod.funcs.get(fn)
+        if f is None:
+            raise AnalysisBroken('match finder %s not found' % fn)
+        P = irrules.prov(mod, f)
+        masked = False
+        for cs in [i for i in f.all_insns() if i.op == 'call' and base_name(i.callee) == callee]:
+            D0 = strip_casts(f, cs.args[1 if callee == 'get_dist_code' else 0][1])
+            cands = [D0]
+            dd = f.defs.get(D0)
+            if dd is not None and dd.op == 'load':
+                at = P.atoms(dd.ops[0])
+                if len(at) == 1 and list(at)[0][0] == 'alloca':
+                    cands = [strip_casts(f, j.ops[0]) for j in irrules.reaching_stores(mod, f, at, dd) if j is not None and j.op == 'store']
+            for D in cands:
+                d = f.defs.get(D)
+                if d is not None and d.op == 'add' and d.ops[1] == '1':
+                    a = f.defs.get(strip_casts(f, d.ops[0]))
+                    if a is not None and a.op == 'and' and any(is_mask(P, f, m_, cell) for m_ in a.ops):
+                        masked = True
+        if not masked:
+            continue
+        R.instance()
+        hh = ('param', 0, off['internal_state.has_hist'])
+        ok, why = False, 'has_hist is never compared with IGZIP_NO_HIST'
+        for b, br, c in irrules.cond_branches(mod, f):
+            if c is None or c.op != 'icmp' or c.extra['pred'] not in ('eq', 'ne'):
+                continue
+            lhs, rhs = strip_casts(f, c.ops[0]), c.ops[1]
+            dl = f.defs.get(lhs)
+            if dl is None or dl.op != 'load' or P.atoms(dl.ops[0]) != {hh} or not re.match(r'^\d+$', rhs) or int(rhs) != K['NO']:
+                continue
+            tt, tf = br.extra['targets']
+            eq_t = tt if c.extra['pred'] == 'eq' else tf
+            sets = [i for i in f.all_insns() if i.op == 'store' and P.atoms(i.ops[1]) == {hh} and re.match(r'^\d+$', i.ops[0]) and int(i.ops[0]) == K['HIST']]
+            if any(f.dominates(eq_t, s_.block) for s_ in sets):
+                ok = True
+            else:
+                why = 'the branch on has_hist == IGZIP_NO_HIST does not lead to the store has_hist = IGZIP_HIST'
+        R.check(ok, mod.where(f, None), '%s only masks its distances, but %s: after a history reset the first hash entry equals the current position, distance 0 is folded to dist_mask + 1 and the match reaches before the reset point' % (fn, why),
+                key='R-MASKED-NOHIST|%s' % fn, sample='%s: first position after a reset is a literal (has_hist == IGZIP_NO_HIST guard)' % fn)
+
+
 def check_mask_range(rep, config):
     R = rep.rule('R-DISTMASK-RANGE[%s]' % config, 'interval analysis of set_dist_mask over every hist_bits: afterwards hist_bits in [1,15] and dist_mask <= min(2^15, IGZIP_HIST_SIZE) - 1; _zlib_header_in_buffer advertises CINFO >= hist_bits - 8',
                  floor=1, unit='functions')
@@ -387,6 +441,7 @@ def main(tier):
     mod = llir.library('default')
     S = c19.summaries(mod)
     rep.attempt(check_distguard_c, rep, mod)
+    rep.attempt(check_masked_nohist, rep, mod)
     for c in CONFIGS:
         check_mask_range(rep, c)
     rep.attempt(check_dict, rep, mod, S)
